@@ -700,3 +700,134 @@ Section RingRot.
         apply (block_rot ws s) in Hin; auto; try tauto. rewrite E in Hin. exact Hin.
   Qed.
 End RingRot.
+
+(* ---------------------------------------------------------------- indices and signals of a block *)
+Lemma m256_wrap f i : f < 256 -> i < f -> (f + (256 - f + i)) mod 256 = i.
+Proof. intros; lia. Qed.
+
+(* range_to_indices as a cyclic walk *)
+Lemma rti_cyclic f l : f < NW -> 1 <= l <= NW ->
+  range_to_indices (f, l) = map (fun j => (f + j) mod NW) (Nseq 0 (rlen f l)).
+Proof.
+  intros Hf Hl. unfold range_to_indices, rlen. destruct (f <? l) eqn:E.
+  - unfold Nseq. rewrite map_map. apply map_ext_in. intros j Hj. apply in_seq in Hj.
+    rewrite N.mod_small; lia.
+  - rewrite Nseq_app, map_app. f_equal.
+    + unfold Nseq. rewrite map_map. apply map_ext_in. intros j Hj. apply in_seq in Hj.
+      rewrite N.mod_small; lia.
+    + unfold Nseq. rewrite !map_map. apply map_ext_in. intros j Hj. apply in_seq in Hj.
+      unfold NW in *. rewrite N.add_0_l. rewrite m256_wrap; lia.
+Qed.
+
+Lemma rti_length r : length (range_to_indices r) = N.to_nat (range_to_len r).
+Proof.
+  destruct r as [f l]. unfold range_to_indices, range_to_len. case_if.
+  - apply Nseq_length.
+  - rewrite app_length, !Nseq_length. lia.
+Qed.
+
+Lemma rti_rot s f l : f < NW -> 1 <= l <= NW ->
+  range_to_indices (rot_range s (f, l)) = map (fun i => (i + s) mod NW) (range_to_indices (f, l)).
+Proof.
+  intros Hf Hl. pose proof (rot_range_valid s (f, l)) as V.
+  pose proof (rlen_rot f l s Hf Hl) as R.
+  destruct (rot_range s (f, l)) as [f' l'] eqn:E. cbn [fst snd] in *.
+  rewrite !rti_cyclic by tauto. rewrite R, map_map. apply map_ext. intros j.
+  unfold rot_range in E. inversion E. cbn [fst snd]. unfold NW. apply m256_add.
+Qed.
+
+Lemma rti_lt f l i : f < NW -> 1 <= l <= NW -> In i (range_to_indices (f, l)) -> i < NW.
+Proof.
+  intros Hf Hl. rewrite rti_cyclic by auto. rewrite in_map_iff. intros (j & <- & _).
+  unfold NW; lia.
+Qed.
+
+Section BlockSigs.
+  Context {sig : Type}.
+  Implicit Types ws : list (option sig).
+
+  (* every kernel call receives the same argument list: the signals of the rotated block are the
+     signals of the block, in the same order *)
+  Theorem block_sigs_rot ws s f l : wf ws -> s <= NW -> f < NW -> 1 <= l <= NW ->
+    block_sigs (rotw s ws) (rot_range s (f, l)) = block_sigs ws (f, l).
+  Proof.
+    intros W Hs Hf Hl. unfold block_sigs. rewrite rti_rot by auto.
+    rewrite flat_map_map. apply flat_map_ext_in. intros i Hi.
+    rewrite get_rotw_fwd; auto. eapply rti_lt; eauto.
+  Qed.
+
+  (* the unwrap in y_matrix / problem_dimensions cannot fail on a block: all its signals are present *)
+  Theorem block_sigs_all_some ws f l : block ws f l ->
+    length (block_sigs ws (f, l)) = length (range_to_indices (f, l)).
+  Proof.
+    intros (Hf & Hl & Hall & _). unfold block_sigs. rewrite rti_cyclic by auto.
+    rewrite flat_map_map, map_length.
+    assert (G : forall L, (forall j, In j L -> j < rlen f l) ->
+                length (flat_map (fun x => opt_list (get ws ((f + x) mod NW))) L) = length L).
+    { induction L; cbn [flat_map length]; intros HL; auto.
+      rewrite app_length, IHL by (intros; apply HL; cbn; auto).
+      specialize (Hall a (HL a (or_introl eq_refl))). unfold pres in Hall.
+      destruct (get ws ((f + a) mod NW)); cbn in *; auto. discriminate. }
+    apply G. intros j Hj. apply Nseq_in in Hj. lia.
+  Qed.
+End BlockSigs.
+
+(* ---------------------------------------------------------------- the full ring (finding F3) *)
+Section FullRing.
+  Context {sig : Type}.
+
+  Lemma full_ring_cr (ws : list (option sig)) : full_ring ws -> contiguous_ranges ws = [(0, NW)].
+  Proof.
+    intros F. unfold contiguous_ranges.
+    assert (E : scan_end ring_fuel ws 0 = NW).
+    { destruct (scan_end_ring ws 0) as (E1 & E2 & [E3|E3]); auto. unfold NW; lia.
+      destruct (N.eq_dec (scan_end ring_fuel ws 0) NW); auto.
+      unfold pres in E3. rewrite F in E3 by lia. discriminate. }
+    assert (L : scan_ranges ring_fuel ws 0 = [(0, NW)]).
+    { rewrite ring_fuel_val at 1. cbn [scan_ranges]. rewrite E.
+      replace (0 <? NW) with true by reflexivity. cbn [app]. f_equal. }
+    rewrite L. reflexivity.
+  Qed.
+
+  Lemma ws_full_get (sigs : list sig) i : get (map Some sigs) i = nth_error sigs (N.to_nat i).
+  Proof. unfold get. rewrite nth_error_map. destruct (nth_error sigs (N.to_nat i)); auto. Qed.
+
+  Lemma block_sigs_full (sigs : list sig) : N.of_nat (length sigs) = NW ->
+    block_sigs (map Some sigs) (0, NW) = sigs.
+  Proof.
+    intros W. unfold block_sigs, range_to_indices.
+    replace (0 <? NW) with true by reflexivity. rewrite N.sub_0_r.
+    apply nth_error_ext. intros i.
+    assert (G : forall L, flat_map (fun i => opt_list (get (map Some sigs) i)) L =
+                          flat_map (fun i => opt_list (nth_error sigs (N.to_nat i))) L).
+    { intros L. apply flat_map_ext. intros; now rewrite ws_full_get. }
+    rewrite G. clear G.
+    (* every slot is present: the flat_map is a map *)
+    assert (H : flat_map (fun i => opt_list (nth_error sigs (N.to_nat i))) (Nseq 0 NW) = sigs).
+    { unfold Nseq. rewrite flat_map_map. replace (N.to_nat NW) with (length sigs) by lia.
+      clear W. induction sigs using rev_ind; auto.
+      rewrite app_length. cbn [length]. rewrite seq_app, flat_map_app. cbn [seq flat_map plus].
+      rewrite app_nil_r. f_equal.
+      - rewrite <- IHsigs at 2. apply flat_map_ext_in. intros j Hj. apply in_seq in Hj.
+        rewrite N.add_0_l, Nat2N.id. rewrite nth_error_app1 by lia. reflexivity.
+      - rewrite N.add_0_l, Nat2N.id. rewrite nth_error_app2 by lia.
+        rewrite Nat.sub_diag. reflexivity. }
+    now rewrite H.
+  Qed.
+
+  (* with all 256 wires present the single block always starts at wire 0, whatever the rotation:
+     the deconvolution kernel receives the rotated list of signals *)
+  Theorem full_ring_block_not_rotated (sigs : list sig) s :
+    N.of_nat (length sigs) = NW -> s <= NW ->
+    contiguous_ranges (rotw s (map Some sigs)) = [(0, NW)] /\
+    block_sigs (rotw s (map Some sigs)) (0, NW) = rotw s sigs /\
+    (0 < s < NW -> rot_range s (0, NW) = (s, s)).
+  Proof.
+    intros W Hs. unfold rotw. rewrite rot_map. split; [|split].
+    - apply full_ring_cr. intros i Hi. rewrite ws_full_get.
+      destruct (nth_error (rot NW s sigs) (N.to_nat i)) eqn:E; auto.
+      apply nth_error_None in E. rewrite rot_length in E. lia.
+    - apply block_sigs_full. now rewrite rot_length.
+    - intros H. unfold rot_range, NW in *. cbn [fst snd]. f_equal; lia.
+  Qed.
+End FullRing.
